@@ -43,7 +43,7 @@ MW_KINDS = ['P', 'S', 'Q', 'R', 'A']     # A = answers every request itself, not
 EXTRA_MW_KINDS = ['U', 'E']
 E_CODES = [-32600, -32700]
 TABLES = ['none', 'generic', 'per-code', 'both', 'two-per-key', 'replace-generic', 'replace-per-code', 'annotate', 'same-callable',
-          'codes-declared-before-generic', 'translate-to-protocol-codes']
+          'codes-declared-before-generic', 'translate-to-protocol-codes', 'handlers-for-rejection-codes']
 FLOORS = {'*': {**{f'mw:{k}:depth{d}': 20 for k in MW_KINDS + EXTRA_MW_KINDS for d in range(3)},
                 **{f'table:{t}:failing': 20 for t in TABLES if t != 'none'},
                 **{f'table:{t}:batch': 5 for t in TABLES}, **{f'table:{t}:notification': 5 for t in TABLES},
@@ -57,6 +57,8 @@ EVENTS = []
 
 
 def tok(request):
+    if request is None:
+        return 'no-request'         # (a hook called without a request: recorded, the event checks then say what is wrong)
     return request.id if request.id is not None else f'n:{request.method}'
 
 
@@ -191,6 +193,10 @@ def table_spec(name):
     if name == 'translate-to-protocol-codes':
         # handlers that translate application failures into -32600 / -32700 (for requests that DO have an id)
         return {None: ['to-protocol-code'], **{c: ['identity', 'to-protocol-code'] for c in RAISED_CODES[:3]}}
+    if name == 'handlers-for-rejection-codes':
+        # entries under the codes of documents that are rejected before any request exists: nothing is ever raised with them
+        # inside the chain, so they never run (a rejected document reaches neither middlewares nor handlers)
+        return {-32600: ['annotate', 'replace'], -32700: ['replace'], None: ['identity'], -32601: ['annotate']}
     if name == 'same-callable':
         # one handler object listed generically and (twice) per code: every listed entry applies, in list order
         return {None: ['shared'], **{c: ['annotate', 'shared', 'shared'] for c in RAISED_CODES}}
